@@ -184,6 +184,21 @@ def run(run):
                     except Exception as ex:
                         add({"ev": "Papr", "raised": True, "error": repr(ex)[:100]}, "PAPRConstraint", cfg)
                     run.case(("papr", cplx, shape, fname, lim), nontrivial=True)
+                    # the same batch with items of very different power: the limit is per item, whatever the neighbours look like
+                    if len(shape) > 1 and shape[0] > 1 and fname in ("gaussian", "ofdm", "uniform") and lim in (2.0, 4.0):
+                        rs = torch.tensor([10.0 ** (-2 + 4 * b / (shape[0] - 1)) for b in range(shape[0])]).reshape((shape[0],) + (1,) * (len(shape) - 1))
+                        xs = fams[fname].reshape(shape) * rs        # unit-scale family signal: item scales stay inside the stated 1e-2..1e4
+                        cfg2 = dict(cfg, item_scales="1e-2..1e2")
+                        try:
+                            y = K.PAPRConstraint(max_papr=lim)(xs)
+                            for b, (xi, yi) in enumerate(zip(items_of(xs), items_of(y))):
+                                p2 = (yi.abs() ** 2).double()
+                                q2 = (xi.abs() ** 2).double()
+                                add({"ev": "Papr", "raised": False, "papr_ppm": int(round(min(float(p2.max() / p2.mean()) / lim, 2000.0) * 1e6)),
+                                     "frac20_ppm": int(round(float((q2 >= q2.max() / 100.0).double().mean()) * 1e6)), "shape_ok": tuple(y.shape) == tuple(xs.shape)}, "PAPRConstraint", dict(cfg2, item=b))
+                        except Exception as ex:
+                            add({"ev": "Papr", "raised": True, "error": repr(ex)[:100]}, "PAPRConstraint", cfg2)
+                        run.case(("papr-rowscaled", cplx, shape, fname, lim), nontrivial=True)
     # ---------------------------------------------------------------- composites: order and equality with sequential application
     pool = [("total", lambda: K.TotalPowerConstraint(2.0)), ("avg", lambda: K.AveragePowerConstraint(0.3)), ("peak", lambda: K.PeakAmplitudeConstraint(0.8)),
             ("papr", lambda: K.PAPRConstraint(max_papr=3.0)), ("identity", lambda: K.IdentityConstraint())]
